@@ -235,6 +235,35 @@ def r121(rep: Report, ctx: Ctx, sql) -> None:
                   f"'{unparse(cmpn[0]) if cmpn else '<missing>'}'")
 
 
+def per_trace_skip(rep: Report, ctx: Ctx, rule: str) -> None:
+    """(shared with C08)  A trace that cannot be materialised is skipped on
+    its own: an exception handler sits inside the per-trace iteration, never
+    around it."""
+    # a trace that cannot be materialised is skipped on its own: an exception
+    # handler must sit inside the per-trace iteration, never around it
+    jm = ctx.func("job_ids_to_eventid_to_otelevent_map")
+    jv = chain_var(ctx, jm, "P:job_id_streams")
+    for tr in [t for t in ast.walk(jm.node) if isinstance(t, ast.Try)]:
+        if not tr.handlers:
+            continue
+        consumed = [n for st in tr.body for n in ast.walk(st)
+                    if (isinstance(n, (ast.For, ast.comprehension))
+                        and any(isinstance(x, ast.Name) and x.id == jv
+                                for x in ast.walk(n.iter)))
+                    or (isinstance(n, ast.Call) and any(
+                        isinstance(a, ast.Name) and a.id == jv
+                        for a in n.args))]
+        swallowing = [h for h in tr.handlers if not any(
+            isinstance(x, ast.Raise) for st in h.body for x in ast.walk(st))]
+        rep.ob(rule, "a broken trace is skipped without ending the "
+               "stream", not (consumed and swallowing), fi=jm, node=tr,
+               detail=("the try statement encloses the iteration over "
+                       f"'{jv}': the first trace that raises ends the "
+                       "generator, every later trace of the workflow is "
+                       "never delivered" if consumed and swallowing else
+                       "the handler is inside the per-trace iteration"))
+
+
 def r122(rep: Report, ctx: Ctx) -> None:
     rep.rule("R12.2", "nested lazy groups are consumed in order", 14)
     chain_funcs = {f for f, _ in CHAIN} | {
@@ -305,29 +334,7 @@ def r122(rep: Report, ctx: Ctx) -> None:
                    "materialises it before the next group is requested")
         rep.ob("R12.2", f"{fi.short}: inner groups are consumed in place",
                ok, fi=fi, node=loops[0] if loops else fi.node, detail=why)
-    # a trace that cannot be materialised is skipped on its own: an exception
-    # handler must sit inside the per-trace iteration, never around it
-    jm = ctx.func("job_ids_to_eventid_to_otelevent_map")
-    jv = chain_var(ctx, jm, "P:job_id_streams")
-    for tr in [t for t in ast.walk(jm.node) if isinstance(t, ast.Try)]:
-        if not tr.handlers:
-            continue
-        consumed = [n for st in tr.body for n in ast.walk(st)
-                    if (isinstance(n, (ast.For, ast.comprehension))
-                        and any(isinstance(x, ast.Name) and x.id == jv
-                                for x in ast.walk(n.iter)))
-                    or (isinstance(n, ast.Call) and any(
-                        isinstance(a, ast.Name) and a.id == jv
-                        for a in n.args))]
-        swallowing = [h for h in tr.handlers if not any(
-            isinstance(x, ast.Raise) for st in h.body for x in ast.walk(st))]
-        rep.ob("R12.2", "a broken trace is skipped without ending the "
-               "stream", not (consumed and swallowing), fi=jm, node=tr,
-               detail=("the try statement encloses the iteration over "
-                       f"'{jv}': the first trace that raises ends the "
-                       "generator, every later trace of the workflow is "
-                       "never delivered" if consumed and swallowing else
-                       "the handler is inside the per-trace iteration"))
+    per_trace_skip(rep, ctx, "R12.2")
     conv = ctx.func("convert_otel_event_stream_to_event_id_to_otelevent_map")
     p0 = conv.params()[0]
     loops = [l for l in ast.walk(conv.node) if isinstance(l, ast.For)
